@@ -19,6 +19,10 @@
 //!        preparsed = `Request::preparsed` from the parts of the `Request::new` result equals it
 //!                    on every public field and on the verdict of a fixed 10-rule engine;
 //!        idempotent= `Request::new` of the normalised URL is the same request.
+//!      Classifier: a spurious third-party verdict that is reproduced by the model "a host with a
+//!      label outside registry syntax (underscore, leading/trailing hyphen) is its own site" gets
+//!      the signature `c12.party.spurious-third.label-syntax-fallback`; every other party
+//!      mismatch is named after the shapes of the two hosts.
 //!      Upper-case ASCII hosts, hosts the url crate would canonicalise (percent escapes, IPv4
 //!      shorthands, expanded IPv6), control characters inside the authority, hosts that differ
 //!      only by a trailing dot: executed, `Unspecified`.
@@ -1046,6 +1050,13 @@ fn check(ctx: &Ctx) -> i32 {
         if adblock::lists::parse_filter(r, true, Default::default()).is_err() {
             eprintln!("machinery: engine rule {:?} is rejected", r);
             return 3;
+        }
+    }
+
+    // observations on inputs whose normalisation the property does not pin (DESIGN §4 C12)
+    for (u, src) in [("HTTP://EXAMPLE.COM/", "http://example.com/"), ("http://exa\tmple.com/", ""), ("http://exa%6dple.com/", "http://example.com/")] {
+        if let Ok(Ok(r)) = catch(|| Request::new(u, src, "script")) {
+            ctx.note(format!("observation (Unspecified, not compared): Request::new({:?}, {:?}) reports hostname {:?}, third_party={}", u, src, r.hostname, r.is_third_party));
         }
     }
 
